@@ -320,7 +320,7 @@ example : ((lateRun { dur := 40, trailing := true } (fun _ _ => 0) (f36 ++ [.tic
 example : (trunCode { dur := 40, trailing := true } (fun _ _ => 0) [.call, .next 0, .advance 3, .call, .next 1, .advance 40]).grants.map (·.t)
     = [0, 40] := by decide
 
-/-! ## 3. debounce when the goroutine of an expired timer starts late (finding F37) -/
+/-! ## 3. debounce when the goroutine of an expired timer starts late (findings F37, F46) -/
 
 /-- the invariant of the late-start debounce system (repaired code) -/
 structure DLInv (wait : Nat) (s : DLState) : Prop where
@@ -328,12 +328,15 @@ structure DLInv (wait : Nat) (s : DLState) : Prop where
   fresh : ∀ t ∈ s.timers, t.id < s.nextId
   /-- the current timer was created by the most recent call-or-cancel event, and that event is a call -/
   cr : ∀ c, s.cur = some c → ∃ k, s.lastEv = some (k, true) ∧ ∀ t ∈ s.timers, t.id = c → t.idx = k
-  rn : ∀ r ∈ s.runs, r.lastAt = some (r.idx, true) ∧ r.tc + wait ≤ r.f
+  /-- a goroutine that was told to go ahead was the current timer's, at least `wait` after its call, at its check -/
+  ga : ∀ t ∈ s.timers, t.goAhead = true → t.gaLast = some (t.idx, true) ∧ t.tc + wait ≤ t.gaT ∧ t.gaT ≤ s.now
+  rn : ∀ r ∈ s.runs, r.gaLast = some (r.idx, true) ∧ r.tc + wait ≤ r.gaT ∧ r.gaT ≤ r.f
 
 theorem dlinv_init (wait : Nat) : DLInv wait {} where
   tm := by intro t ht; cases ht
   fresh := by intro t ht; cases ht
   cr := by intro c hc; cases hc
+  ga := by intro t ht; cases ht
   rn := by intro r hr; cases hr
 
 theorem mem_stopCur {s : DLState} {t : Model.C20.DLTimer} (h : t ∈ stopCur s) : t ∈ s.timers := by
@@ -346,7 +349,7 @@ theorem dlstep_inv {wait : Nat} {s : DLState} (e : DLEv) (h : DLInv wait s) : DL
   unfold dlstep
   cases e with
   | call =>
-    refine ⟨?_, ?_, ?_, h.rn⟩
+    refine ⟨?_, ?_, ?_, ?_, h.rn⟩
     · intro t ht
       rcases List.mem_append.mp ht with ht | ht
       · exact h.tm t (mem_stopCur ht)
@@ -373,79 +376,135 @@ theorem dlstep_inv {wait : Nat} {s : DLState} (e : DLEv) (h : DLInv wait s) : DL
       · simp only [List.mem_singleton] at ht
         subst ht
         rfl
+    · intro t ht hg
+      rcases List.mem_append.mp ht with ht | ht
+      · exact h.ga t (mem_stopCur ht) hg
+      · simp only [List.mem_singleton] at ht
+        subst ht
+        cases hg
   | cancel =>
-    refine ⟨fun t ht => h.tm t (mem_stopCur ht), fun t ht => h.fresh t (mem_stopCur ht), ?_, h.rn⟩
+    refine ⟨fun t ht => h.tm t (mem_stopCur ht), fun t ht => h.fresh t (mem_stopCur ht), ?_,
+      fun t ht hg => h.ga t (mem_stopCur ht) hg, h.rn⟩
     intro c hc
     cases hc
   | tick dt =>
-    refine ⟨?_, h.fresh, h.cr, h.rn⟩
-    intro t ht
-    obtain ⟨h1, h2⟩ := h.tm t ht
-    exact ⟨h1, fun hx => by have := h2 hx; show t.deadline ≤ s.now + dt; omega⟩
+    refine ⟨?_, h.fresh, h.cr, ?_, h.rn⟩
+    · intro t ht
+      obtain ⟨h1, h2⟩ := h.tm t ht
+      exact ⟨h1, fun hx => by have := h2 hx; show t.deadline ≤ s.now + dt; omega⟩
+    · intro t ht hg
+      obtain ⟨g1, g2, g3⟩ := h.ga t ht hg
+      exact ⟨g1, g2, by show t.gaT ≤ s.now + dt; omega⟩
   | expire id =>
-    refine ⟨?_, ?_, ?_, h.rn⟩
-    · intro t ht
+    have key : ∀ t ∈ s.timers.map (fun t => if t.id == id && decide (t.deadline ≤ s.now) then { t with expired := true } else t),
+        ∃ t0 ∈ s.timers, t.id = t0.id ∧ t.idx = t0.idx ∧ t.tc = t0.tc ∧ t.deadline = t0.deadline ∧ t.goAhead = t0.goAhead ∧
+          t.gaT = t0.gaT ∧ t.gaLast = t0.gaLast ∧ (t.expired = true → t0.expired = true ∨ t0.deadline ≤ s.now) := by
+      intro t ht
       obtain ⟨t0, ht0, rfl⟩ := List.mem_map.mp ht
-      obtain ⟨h1, h2⟩ := h.tm t0 ht0
+      refine ⟨t0, ht0, ?_⟩
       by_cases hc : (t0.id == id && decide (t0.deadline ≤ s.now)) = true
-      · simp only [hc, if_true]
+      · rw [if_pos hc]
         simp only [Bool.and_eq_true, decide_eq_true_eq] at hc
-        exact ⟨h1, fun _ => hc.2⟩
-      · simp only [hc, Bool.false_eq_true, if_false]
-        exact ⟨h1, h2⟩
+        exact ⟨rfl, rfl, rfl, rfl, rfl, rfl, rfl, fun _ => Or.inr hc.2⟩
+      · rw [if_neg hc]
+        exact ⟨rfl, rfl, rfl, rfl, rfl, rfl, rfl, fun hx => Or.inl hx⟩
+    refine ⟨?_, ?_, ?_, ?_, h.rn⟩
     · intro t ht
-      obtain ⟨t0, ht0, rfl⟩ := List.mem_map.mp ht
-      have := h.fresh t0 ht0
-      by_cases hc : (t0.id == id && decide (t0.deadline ≤ s.now)) = true
-      · simp only [hc, if_true]; exact this
-      · simp only [hc, Bool.false_eq_true, if_false]; exact this
+      obtain ⟨t0, ht0, e1, e2, e3, e4, e5, e6, e7, e8⟩ := key t ht
+      obtain ⟨h1, h2⟩ := h.tm t0 ht0
+      refine ⟨by rw [e4, e3]; exact h1, fun hx => ?_⟩
+      rcases e8 hx with hy | hy
+      · rw [e4]; exact h2 hy
+      · rw [e4]; exact hy
+    · intro t ht
+      obtain ⟨t0, ht0, e1, _⟩ := key t ht
+      rw [e1]; exact h.fresh t0 ht0
     · intro c hc
       obtain ⟨k, hk, hall⟩ := h.cr c hc
       refine ⟨k, hk, ?_⟩
       intro t ht hid
-      obtain ⟨t0, ht0, rfl⟩ := List.mem_map.mp ht
-      by_cases hcnd : (t0.id == id && decide (t0.deadline ≤ s.now)) = true
-      · simp only [hcnd, if_true] at hid ⊢; exact hall t0 ht0 hid
-      · simp only [hcnd, Bool.false_eq_true, if_false] at hid ⊢; exact hall t0 ht0 hid
-  | start id =>
+      obtain ⟨t0, ht0, e1, e2, _⟩ := key t ht
+      rw [e2]; exact hall t0 ht0 (by rw [← e1]; exact hid)
+    · intro t ht hg
+      obtain ⟨t0, ht0, e1, e2, e3, e4, e5, e6, e7, _⟩ := key t ht
+      have := h.ga t0 ht0 (by rw [← e5]; exact hg)
+      rw [e7, e2, e3, e6]; exact this
+  | check id =>
+    simp only [Bool.not_true, Bool.false_or]
+    by_cases hc : (s.cur == some id) = true
+    · simp only [hc, if_true]
+      have hcur : s.cur = some id := by simpa using hc
+      obtain ⟨k, hk, hall⟩ := h.cr id hcur
+      have key : ∀ t ∈ s.timers.map (fun t => if t.id == id && t.expired && !t.goAhead
+            then { t with goAhead := true, gaT := s.now, gaLast := s.lastEv } else t),
+          ∃ t0 ∈ s.timers, t.id = t0.id ∧ t.idx = t0.idx ∧ t.tc = t0.tc ∧ t.deadline = t0.deadline ∧ t.expired = t0.expired ∧
+            ((t.goAhead = t0.goAhead ∧ t.gaT = t0.gaT ∧ t.gaLast = t0.gaLast) ∨
+             (t0.id = id ∧ t0.expired = true ∧ t.gaT = s.now ∧ t.gaLast = s.lastEv)) := by
+        intro t ht
+        obtain ⟨t0, ht0, rfl⟩ := List.mem_map.mp ht
+        refine ⟨t0, ht0, ?_⟩
+        by_cases hcnd : (t0.id == id && t0.expired && !t0.goAhead) = true
+        · rw [if_pos hcnd]
+          simp only [Bool.and_eq_true, beq_iff_eq] at hcnd
+          exact ⟨rfl, rfl, rfl, rfl, rfl, Or.inr ⟨hcnd.1.1, hcnd.1.2, rfl, rfl⟩⟩
+        · rw [if_neg hcnd]
+          exact ⟨rfl, rfl, rfl, rfl, rfl, Or.inl ⟨rfl, rfl, rfl⟩⟩
+      refine ⟨?_, ?_, ?_, ?_, h.rn⟩
+      · intro t ht
+        obtain ⟨t0, ht0, e1, e2, e3, e4, e5, _⟩ := key t ht
+        obtain ⟨h1, h2⟩ := h.tm t0 ht0
+        exact ⟨by rw [e4, e3]; exact h1, fun hx => by rw [e4]; exact h2 (by rw [← e5]; exact hx)⟩
+      · intro t ht
+        obtain ⟨t0, ht0, e1, _⟩ := key t ht
+        rw [e1]; exact h.fresh t0 ht0
+      · intro c hcc
+        obtain ⟨k', hk', hall'⟩ := h.cr c hcc
+        refine ⟨k', hk', ?_⟩
+        intro t ht hid
+        obtain ⟨t0, ht0, e1, e2, _⟩ := key t ht
+        rw [e2]; exact hall' t0 ht0 (by rw [← e1]; exact hid)
+      · intro t ht hg
+        obtain ⟨t0, ht0, e1, e2, e3, e4, e5, e6⟩ := key t ht
+        rcases e6 with ⟨g1, g2, g3⟩ | ⟨g1, g2, g3, g4⟩
+        · have := h.ga t0 ht0 (by rw [← g1]; exact hg)
+          rw [g3, e2, e3, g2]; exact this
+        · obtain ⟨h1, h2⟩ := h.tm t0 ht0
+          have hd := h2 g2
+          refine ⟨?_, ?_, ?_⟩
+          · rw [g4, hk, e2, hall t0 ht0 g1]
+          · rw [g3, e3]; omega
+          · rw [g3]; exact Int.le_refl _
+    · simp only [hc, Bool.false_eq_true, if_false]
+      have sub : ∀ t', t' ∈ s.timers.filter (fun t => !(t.id == id && t.expired && !t.goAhead)) → t' ∈ s.timers :=
+        fun t' ht' => (List.mem_filter.mp ht').1
+      refine ⟨fun t ht => h.tm t (sub t ht), fun t ht => h.fresh t (sub t ht), ?_, fun t ht hg => h.ga t (sub t ht) hg, h.rn⟩
+      intro c hcc
+      obtain ⟨k, hk, hall⟩ := h.cr c hcc
+      exact ⟨k, hk, fun t ht hid => hall t (sub t ht) hid⟩
+  | run id =>
     simp only
-    cases hf : s.timers.find? (fun t => t.id == id && t.expired) with
-    | none => exact ⟨h.tm, h.fresh, h.cr, h.rn⟩
+    cases hf : s.timers.find? (fun t => t.id == id && t.goAhead) with
+    | none => exact ⟨h.tm, h.fresh, h.cr, h.ga, h.rn⟩
     | some t =>
       have htm : t ∈ s.timers := List.mem_of_find?_eq_some hf
       have hp := List.find?_some hf
       simp only [Bool.and_eq_true, beq_iff_eq] at hp
       have sub : ∀ t', t' ∈ s.timers.filter (fun t' => !(t'.id == id)) → t' ∈ s.timers :=
         fun t' ht' => (List.mem_filter.mp ht').1
-      simp only [Bool.not_true, Bool.false_or]
-      by_cases hc : (s.cur == some id) = true
-      · simp only [hc, if_true]
-        refine ⟨fun t' ht' => h.tm t' (sub t' ht'), fun t' ht' => h.fresh t' (sub t' ht'), ?_, ?_⟩
-        · intro c hcc
-          obtain ⟨k, hk, hall⟩ := h.cr c hcc
-          exact ⟨k, hk, fun t' ht' hid => hall t' (sub t' ht') hid⟩
-        · intro r hr
-          rcases List.mem_append.mp hr with hr | hr
-          · exact h.rn r hr
-          · simp only [List.mem_singleton] at hr
-            subst hr
-            have hcur : s.cur = some id := by simpa using hc
-            obtain ⟨k, hk, hall⟩ := h.cr id hcur
-            obtain ⟨h1, h2⟩ := h.tm t htm
-            refine ⟨?_, ?_⟩
-            · show s.lastEv = some (t.idx, true)
-              rw [hk, hall t htm hp.1]
-            · show t.tc + wait ≤ s.now
-              have := h2 hp.2
-              omega
-      · simp only [hc, Bool.false_eq_true, if_false]
-        refine ⟨fun t' ht' => h.tm t' (sub t' ht'), fun t' ht' => h.fresh t' (sub t' ht'), ?_, h.rn⟩
-        intro c hcc
+      refine ⟨fun t' ht' => h.tm t' (sub t' ht'), fun t' ht' => h.fresh t' (sub t' ht'), ?_,
+        fun t' ht' hg => h.ga t' (sub t' ht') hg, ?_⟩
+      · intro c hcc
         obtain ⟨k, hk, hall⟩ := h.cr c hcc
         exact ⟨k, hk, fun t' ht' hid => hall t' (sub t' ht') hid⟩
+      · intro r hr
+        rcases List.mem_append.mp hr with hr | hr
+        · exact h.rn r hr
+        · simp only [List.mem_singleton] at hr
+          subst hr
+          exact h.ga t htm hp.2
 
 theorem DLInv.set_n {wait s} (h : DLInv wait s) (k : Nat) : DLInv wait { s with n := k } :=
-  ⟨h.tm, h.fresh, h.cr, h.rn⟩
+  ⟨h.tm, h.fresh, h.cr, h.ga, h.rn⟩
 
 theorem dlrun_inv (wait : Nat) (evs : List DLEv) : DLInv wait (dlrun true wait evs) := by
   have key : ∀ (evs : List DLEv) (s : DLState), DLInv wait s → DLInv wait (evs.foldl (dlstep true wait) s) := by
@@ -455,12 +514,13 @@ theorem dlrun_inv (wait : Nat) (evs : List DLEv) : DLInv wait (dlrun true wait e
     | cons e r ih => intro s hs; exact ih _ (dlstep_inv e hs)
   exact key evs {} (dlinv_init wait)
 
-/-- **Debounce with late-starting goroutines (repaired code).**  Whenever the debounced function starts — however late
-the runtime expires the timer and however late the goroutine created for it gets to run — the most recent `call` or
-`cancel` event of the history is the very call that scheduled it (so: never after a cancel, never after a newer call),
-and at least `wait` has passed since that call. -/
-theorem dlate_runs_ok (wait : Nat) (evs : List DLEv) :
-    ∀ r ∈ (dlrun true wait evs).runs, r.lastAt = some (r.idx, true) ∧ r.tc + wait ≤ r.f :=
+/-- **Debounce with late goroutines (repaired code), what holds** (`…_partial`: see `dlate_full_false` for what does
+not).  Whenever the debounced function runs — however late the runtime expires the timer, however late the goroutine
+gets to make its check and to call f — at the instant of its go-ahead CHECK (under the debouncer's lock) the most recent
+`call` or `cancel` event of the history was the very call that scheduled it (so: no cancel and no newer call had taken
+effect), and at least `wait` had passed since that call. -/
+theorem dlate_runs_ok_partial (wait : Nat) (evs : List DLEv) :
+    ∀ r ∈ (dlrun true wait evs).runs, r.gaLast = some (r.idx, true) ∧ r.tc + wait ≤ r.gaT ∧ r.gaT ≤ r.f :=
   (dlrun_inv wait evs).rn
 
 /-- the position of the most recent `call` / `cancel` of a history, read off the history itself -/
@@ -487,28 +547,47 @@ theorem dl_lastEv (checked : Bool) (wait : Nat) (evs : List DLEv) :
       | cancel => rfl
       | tick dt => rfl
       | expire id => rfl
-      | start id =>
-        show lastCC (dlstep checked wait s (.start id)).n (dlstep checked wait s (.start id)).lastEv r = lastCC (s.n + 1) s.lastEv r
-        have h1 : (dlstep checked wait s (.start id)).n = s.n + 1 := by
-          unfold dlstep; simp only; split <;> (try split) <;> rfl
-        have h2 : (dlstep checked wait s (.start id)).lastEv = s.lastEv := by
-          unfold dlstep; simp only; split <;> (try split) <;> rfl
+      | check id =>
+        have h1 : (dlstep checked wait s (.check id)).n = s.n + 1 := by
+          unfold dlstep; simp only; split <;> rfl
+        have h2 : (dlstep checked wait s (.check id)).lastEv = s.lastEv := by
+          unfold dlstep; simp only; split <;> rfl
+        show lastCC (dlstep checked wait s (.check id)).n (dlstep checked wait s (.check id)).lastEv r = lastCC (s.n + 1) s.lastEv r
+        rw [h1, h2]
+      | run id =>
+        have h1 : (dlstep checked wait s (.run id)).n = s.n + 1 := by
+          unfold dlstep; simp only; split <;> rfl
+        have h2 : (dlstep checked wait s (.run id)).lastEv = s.lastEv := by
+          unfold dlstep; simp only; split <;> rfl
+        show lastCC (dlstep checked wait s (.run id)).n (dlstep checked wait s (.run id)).lastEv r = lastCC (s.n + 1) s.lastEv r
         rw [h1, h2]
   exact key evs {}
 
-/-- **F37**: with the code before the repair the function runs after `cancel()` has returned … -/
+/-- **F37**: with the code before the repair (no check) the function runs after `cancel()` has returned, however far
+apart the cancel and the goroutine's start are … -/
 theorem dlate_old_runs_after_cancel :
-    ((dlrun false 5 [.call, .tick 5, .expire 0, .cancel, .start 0]).runs.map fun r => (r.f, r.idx, r.lastAt))
-      = [(5, 0, some (3, false))] := by decide
+    ((dlrun false 5 [.call, .tick 5, .expire 0, .cancel, .tick 3, .check 0, .run 0]).runs.map fun r => (r.f, r.idx, r.gaLast))
+      = [(8, 0, some (3, false))] := by decide
 
-/-- … and a few instants after a newer call (the newer call at instant 6, position 4; the old function starts at 6) -/
+/-- … and after a newer call (the newer call at instant 6, position 4; the old function starts at 6) -/
 theorem dlate_old_runs_early :
-    ((dlrun false 5 [.call, .tick 5, .expire 0, .tick 1, .call, .start 0]).runs.map fun r => (r.f, r.idx, r.lastAt))
+    ((dlrun false 5 [.call, .tick 5, .expire 0, .tick 1, .call, .check 0, .run 0]).runs.map fun r => (r.f, r.idx, r.gaLast))
       = [(6, 0, some (4, true))] := by decide
 
-/-- the repaired code on the same two histories: nothing runs; the newer call's own function runs at 11 -/
-example : (dlrun true 5 [.call, .tick 5, .expire 0, .cancel, .start 0]).runs = [] := by decide
-example : ((dlrun true 5 [.call, .tick 5, .expire 0, .tick 1, .call, .start 0, .tick 5, .expire 1, .start 1]).runs.map
+/-- the repaired code on the same two histories: the check sends the stale goroutine away; the newer call's own
+function runs at 11 -/
+example : (dlrun true 5 [.call, .tick 5, .expire 0, .cancel, .tick 3, .check 0, .run 0]).runs = [] := by decide
+example : ((dlrun true 5 [.call, .tick 5, .expire 0, .tick 1, .call, .check 0, .run 0, .tick 5, .expire 1, .check 1, .run 1]).runs.map
     fun r => (r.f, r.idx, r.lastAt)) = [(11, 4, some (4, true))] := by decide
+
+/-- **Known finding F46** (`debounce.go-ahead-then-run-window`): the full clause "not at all after cancel / never sooner
+than `wait` after the most recent call" is FALSE of the repaired code too, in one remaining window: the goroutine has made
+its check and released the lock (`check 0`), a `cancel()` then runs to completion, and only then does the goroutine call f
+(`run 0`).  The most recent event when f STARTS is the cancel.  Closing the window needs f to run inside the debouncer's
+critical section (or `cancel` to wait for it), which makes a debounced function that debounces or cancels itself
+dead-lock: not a small and safe repair. -/
+theorem dlate_full_false :
+    ((dlrun true 5 [.call, .tick 5, .expire 0, .check 0, .cancel, .run 0]).runs.map fun r => (r.f, r.lastAt, r.gaLast))
+      = [(5, some (4, false), some (0, true))] := by decide
 
 end GoguVerif.Theorems.C20Late
